@@ -345,6 +345,105 @@ theorem globdir_pattern_exact (a : Bool) (g : Name) (p : Path) (hs : '/' ∉ g) 
     simp only [matchesPattern, Form.render, if_true, e, hlast, matchesDirPattern,
       rstripSlash_append _ hl2, dropAnyDepth, notMem_of_contains_false hs, Bool.false_and, Bool.or_false, Form.specMatch]
 
+theorem joinPath_cons2 (a b : Name) (r : Path) : joinPath (a :: b :: r) = a ++ '/' :: joinPath (b :: r) := by
+  rw [joinPath]; simp
+
+theorem prefix_sep {a b x y : List Char} (ha : '/' ∉ a) (hb : '/' ∉ b) :
+    (a ++ '/' :: x) <+: (b ++ '/' :: y) ↔ a = b ∧ x <+: y := by
+  constructor
+  · intro h
+    induction a generalizing b with
+    | nil =>
+      cases b with
+      | nil =>
+        obtain ⟨t, ht⟩ := h
+        simp at ht
+        exact ⟨rfl, ⟨t, ht⟩⟩
+      | cons c r =>
+        obtain ⟨t, ht⟩ := h
+        simp at ht
+        simp [← ht.1] at hb
+    | cons c r ih =>
+      cases b with
+      | nil =>
+        obtain ⟨t, ht⟩ := h
+        simp at ht
+        simp [ht.1] at ha
+      | cons d r' =>
+        obtain ⟨t, ht⟩ := h
+        simp at ht ha hb
+        obtain ⟨h2, h3⟩ := ih (b := r') ha.2 hb.2 ⟨t, by simpa using ht.2⟩
+        exact ⟨by rw [ht.1, h2], h3⟩
+  · rintro ⟨rfl, t, rfl⟩
+    exact ⟨t, by simp⟩
+
+theorem not_prefix_sep {a b x : List Char} (hb : '/' ∉ b) : ¬ (a ++ '/' :: x) <+: b := by
+  rintro ⟨t, rfl⟩
+  simp at hb
+
+/-- a joined directory path followed by `/` is a prefix of a joined path exactly when its components are a prefix of
+    the path's directory components -/
+theorem joinPath_slash_prefix : (q p : Path) → (∀ c ∈ q, '/' ∉ c) → (∀ c ∈ p, '/' ∉ c) → q ≠ [] → p ≠ [] →
+    ((joinPath q ++ ['/']) <+: joinPath p ↔ q <+: dirParts p)
+  | [], _, _, _, h, _ => absurd rfl h
+  | _, [], _, _, _, h => absurd rfl h
+  | [a], [b], _, hp, _, _ => by
+      simp only [joinPath, dirParts, List.dropLast_singleton]
+      constructor
+      · intro h; exact absurd h (not_prefix_sep (hp b (by simp)))
+      · intro h; simp at h
+  | [a], b :: d :: r, hq, hp, _, _ => by
+      rw [joinPath_cons2]
+      simp only [joinPath, dirParts, List.dropLast_cons_cons]
+      rw [prefix_sep (hq a (by simp)) (hp b (by simp))]
+      simp [List.cons_prefix_cons]
+  | a :: c :: s, [b], _, hp, _, _ => by
+      rw [joinPath_cons2]
+      simp only [joinPath, dirParts, List.dropLast_singleton]
+      constructor
+      · intro h
+        rw [List.append_assoc, List.cons_append] at h
+        exact absurd h (not_prefix_sep (hp b (by simp)))
+      · intro h; simp at h
+  | a :: c :: s, b :: d :: r, hq, hp, _, _ => by
+      have ih := joinPath_slash_prefix (c :: s) (d :: r) (fun x hx => hq x (by simp [hx])) (fun x hx => hp x (by simp [hx]))
+        (by simp) (by simp)
+      rw [joinPath_cons2, joinPath_cons2, List.append_assoc, List.cons_append,
+        prefix_sep (hq a (by simp)) (hp b (by simp)), ih]
+      simp only [dirParts, List.dropLast_cons_cons, List.cons_prefix_cons]
+
+
+theorem mem_slash_joinPath_cons2 (a b : Name) (r : Path) : '/' ∈ joinPath (a :: b :: r) := by
+  rw [joinPath_cons2]; simp
+
+/-- `a/b/` (a directory given by its path from the root, two or more literal components): exactly the files below
+    that directory, at any depth -/
+theorem dirpath_pattern_exact (q p : Path) (hq : literal (joinPath q) = true) (hq2 : 2 ≤ q.length)
+    (hqs : ∀ c ∈ q, '/' ∉ c) (hps : ∀ c ∈ p, '/' ∉ c) (hp0 : p ≠ [])
+    (hlast : (joinPath q).getLast? ≠ some '/') :
+    matchesPattern p (Form.dirPath q).render = (Form.dirPath q).specMatch p := by
+  obtain ⟨a, b, r, rfl⟩ : ∃ a b r, q = a :: b :: r := by
+    match q, hq2 with
+    | a :: b :: r, _ => exact ⟨a, b, r, rfl⟩
+  have hmem := mem_slash_joinPath_cons2 a b r
+  have hcont : (joinPath (a :: b :: r)).contains '/' = true := by simpa using hmem
+  have hl : ((joinPath (a :: b :: r) ++ ['/']).getLast? == some '/') = true := by simp
+  have hlit : literal (joinPath (a :: b :: r) ++ ['/']) = true := by
+    simp only [literal, List.all_append, Bool.and_eq_true] at hq ⊢
+    exact ⟨hq, by decide⟩
+  have hany : (dirParts p).any (fun part => glob (joinPath (a :: b :: r)) part) = false := by
+    rw [List.any_eq_false]
+    intro part hpart
+    rw [glob_literal_eq _ _ hq]
+    simp only [decide_eq_true_eq]
+    intro h
+    exact hps part (List.dropLast_subset _ hpart) (h ▸ hmem)
+  have e : joinPath (a :: b :: r) ++ ['/', '*'] = (joinPath (a :: b :: r) ++ ['/']) ++ ['*'] := by simp
+  simp only [matchesPattern, Form.render, hl, if_true, matchesDirPattern, rstripSlash_append _ hlast,
+    dropAnyDepth_plain _ hq, hany, hcont, Bool.false_or, Bool.true_and, Form.specMatch]
+  rw [Bool.eq_iff_iff, e, glob_literal_star _ _ hlit, List.isPrefixOf_iff_prefix,
+    joinPath_slash_prefix _ p hqs hps (by simp) hp0]
+
 /-- **Every documented pattern form means what gitignore says it means.** -/
 theorem forms_exact (f : Form) (p : Path) (hf : f.wf = true) (hps : ∀ c ∈ p, '/' ∉ c) (hp0 : p ≠ []) :
     matchesPattern p f.render = f.specMatch p := by
@@ -375,9 +474,23 @@ theorem forms_exact (f : Form) (p : Path) (hf : f.wf = true) (hps : ∀ c ∈ p,
   | globDir a g =>
     simp [Form.wf] at hf
     exact globdir_pattern_exact a g p hf.1.1 hf.1.2
-  | dirPath q => simp [Form.wf] at hf       -- not among the well-formed forms of this theorem (see `Form.wf`)
+  | dirPath q =>
+    simp [Form.wf] at hf
+    obtain ⟨⟨h1, h2⟩, h3⟩ := hf
+    have hqs : ∀ c ∈ q, '/' ∉ c := fun c hc => (h2 c hc).1
+    have hq0 : q ≠ [] := by intro h; subst h; simp at h3
+    have hlast : (joinPath q).getLast? ≠ some '/' := by
+      obtain ⟨n, hn⟩ : ∃ n, q.getLast? = some n := by
+        cases h : q.getLast? with
+        | none => simp at h; exact absurd h hq0
+        | some n => exact ⟨n, rfl⟩
+      have hmem : n ∈ q := List.mem_of_getLast? hn
+      rw [getLast?_joinPath q n hn (h2 n hmem).2]
+      intro h
+      exact (h2 n hmem).1 (List.mem_of_getLast? h)
+    exact dirpath_pattern_exact q p h1 h3 hqs hps hp0 hlast
 
-/-- tests (not the unbounded claim) of the multi-component directory form, whose exactness is not proved: everything below the
+/-- concrete instances of the multi-component directory form (`dirpath_pattern_exact`): everything below the
     directory is matched, at any depth, and nothing beside it -/
 example : matchesPattern ["src".toList, "generated".toList, "v2".toList, "m.py".toList] (Form.dirPath ["src".toList, "generated".toList]).render = true ∧
     matchesPattern ["src".toList, "generated".toList, "a.py".toList] (Form.dirPath ["src".toList, "generated".toList]).render = true ∧
